@@ -305,3 +305,62 @@ def fam_vectorization(seed=0, n=20, max_per_type=4):
                     ModelSpec('m', ops, nodes, edges, note=f"vectorization pattern {pat}, {na} two-input nodes, {nb} rpo "
                                                            f"nodes, equal params={equal}")))
     return out
+
+
+def fam_derived():
+    """C15: operators derived through `base:` with equation edits; identifiers contain one another (r, rr, r_in,
+    m_in2).  Returns (key, spec, derived_yaml) where the spec holds the operator the edits must produce when they act
+    on whole identifiers only."""
+    out = []
+
+    def base_op(fp, name='bop'):
+        # x' = (r - x)/tau + rr*r_in + m_in2
+        e = X.add(X.add(X.div(X.sub(V('r'), V('x')), V('tau')), X.mul(V('rr'), V('r_in'))), V('m_in2'))
+        return OpSpec(name, [('x', 'de', e)],
+                      {'x': ('state', fp()), 'r': ('input', fp()), 'tau': ('const', fp()), 'rr': ('const', fp()),
+                       'r_in': ('const', fp()), 'm_in2': ('const', fp())}, output='x')
+
+    variants = []
+    # 1. replace r -> q (must not touch rr, r_in)
+    variants.append(('replace_r', "    replace:\n      r: q", lambda fp, b: (
+        [('x', 'de', X.add(X.add(X.div(X.sub(V('q'), V('x')), V('tau')), X.mul(V('rr'), V('r_in'))), V('m_in2')))],
+        {'q': ('input', fp())}, ['r']), "    q: input({q})"))
+    # 2. replace m -> z must not touch m_in2 ; replace r_in -> g
+    variants.append(('replace_r_in', "    replace:\n      r_in: g\n      m: zz", lambda fp, b: (
+        [('x', 'de', X.add(X.add(X.div(X.sub(V('r'), V('x')), V('tau')), X.mul(V('rr'), V('g'))), V('m_in2')))],
+        {'g': ('const', fp())}, ['r_in']), "    g: {g}"))
+    # 3. remove a term and append another
+    variants.append(('remove_append', "    remove:\n      - m_in2\n    append: \"- k2*x\"", lambda fp, b: (
+        [('x', 'de', X.sub(X.add(X.div(X.sub(V('r'), V('x')), V('tau')), X.mul(V('rr'), V('r_in'))), X.mul(V('k2'), V('x'))))],
+        {'k2': ('const', fp())}, ['m_in2']), "    k2: {k2}"))
+    # 4. add an equation
+    variants.append(('add_eq', "    add:\n      - \"z' = x - z*rr\"", lambda fp, b: (
+        b.eqs + [('z', 'de', X.sub(V('x'), X.mul(V('z'), V('rr'))))],
+        {'z': ('state', fp())}, []), "    z: variable({z})"))
+    # 5. replace x (also on the left-hand side: x' -> the derivative notation keeps the prime)
+    variants.append(('replace_rr', "    replace:\n      rr: (rr + r)", lambda fp, b: (
+        [('x', 'de', X.add(X.add(X.div(X.sub(V('r'), V('x')), V('tau')), X.mul(X.add(V('rr'), V('r')), V('r_in'))), V('m_in2')))],
+        {}, []), ""))
+    for name, edit_yaml, mk, var_yaml in variants:
+        for chain in (1, 2):
+            fp = FP()
+            b = base_op(fp)
+            eqs, newvars, dropped = mk(fp, b)
+            dvars = {k: v for k, v in b.vars.items() if k not in dropped}
+            dvars.update(newvars)
+            dop = OpSpec('dop', eqs, dvars, output='x')
+            ops = {'bop': b, 'dop': dop}
+            nodes = {'n0': NodeSpec(['bop'], _node_overrides(fp, ops, ['bop'])),
+                     'n1': NodeSpec(['dop'], _node_overrides(fp, ops, ['dop']))}
+            edges = [EdgeSpec('n0/bop/x', 'n1/dop/' + ('q' if name == 'replace_r' else 'r'), fp()),
+                     EdgeSpec('n1/dop/x', 'n0/bop/r', fp())]
+            vy = var_yaml.format(**{k: float(v[1]) for k, v in newvars.items()}) if var_yaml else ''
+            if chain == 1:
+                text = f"dop:\n  base: bop\n  equations:\n{edit_yaml}\n" + (f"  variables:\n{vy}\n" if vy else '')
+            else:
+                # two-step chain: an intermediate template that changes nothing but a default value
+                text = (f"mid:\n  base: bop\n  variables:\n    tau: {float(b.vars['tau'][1])}\n\n"
+                        f"dop:\n  base: mid\n  equations:\n{edit_yaml}\n" + (f"  variables:\n{vy}\n" if vy else ''))
+            out.append((f"FD:{name}:chain={chain}", ModelSpec('m', ops, nodes, edges, note=f"derived operator {name}"),
+                        {'dop': text}))
+    return out
